@@ -79,7 +79,8 @@ Deliver(res, sup, o, shNew) ==
   ELSE /\ k' = Pop /\ mode' = "ret" /\ out' = o
        /\ gh' = [gh EXCEPT !.ex = @ + (IF Failing(res, sup) /\ cur.o.e THEN 1 ELSE 0),
                            !.sup = @ + (IF res.cf = "n" /\ res.st # 0 /\ sup /\ cur.o.e THEN 1 ELSE 0),
-                           !.flow = @ + (IF res.cf # "n" THEN 1 ELSE 0)]
+                           !.flow = @ + (IF res.cf # "n" THEN 1 ELSE 0),
+                           !.fatal = @ + (IF res.cf = "x" /\ P[Top.i].t \in {"us", "fe"} THEN 1 ELSE 0)]
        /\ r' = IF Failing(res, sup) /\ cur.o.e THEN [res EXCEPT !.cf = "x"] ELSE res
        /\ sh' = [shNew EXCEPT ![Len(shNew)].st = res.st]
 
@@ -130,9 +131,12 @@ EvalLeaf ==
                          [] OTHER -> [Cur.o EXCEPT !.E = v] IN
              Deliver(R(0, "n", 0), f.sup, out, SetCur([Cur EXCEPT !.o = o1]))
        [] nd.t = "us"   -> IF Cur.o.u                      \* `: $unset` : fatal under nounset
-                           THEN Deliver(R(IF "FatalExpStatus1" \in DEV \/ Len(sh) > 1 THEN 1 ELSE 127, "x", 0), f.sup, out, sh)
+                           THEN Deliver(R(127, "x", 0), f.sup, out, sh)
                            ELSE Deliver(R(0, "n", 0), f.sup, out, sh)
-       [] nd.t = "fe"   -> Deliver(R(IF "FatalExpStatus1" \in DEV \/ Len(sh) > 1 THEN 1 ELSE 127, "x", 0), f.sup, out, sh)   \* `: ${unset:?}` (bash: 127 in the main shell, 1 in a subshell)
+       [] nd.t = "fe"   -> Deliver(R(127, "x", 0), f.sup, out, sh)   \* `: ${unset:?}`
+             \* The status of a fatal expansion error is only required to be non-zero (POSIX); bash itself
+             \* uses 127 or 1 depending on errexit and on the kind of subshell.  The model says 127 and the
+             \* driver identifies 1 and 127 when comparing programs whose run counted gh.fatal > 0.
        [] nd.t = "trapx" -> Deliver(R(0, "n", 0), f.sup, out, SetCur([Cur EXCEPT !.tx = f.i]))
        [] nd.t = "trape" -> Deliver(R(0, "n", 0), f.sup, out, SetCur([Cur EXCEPT !.te = f.i]))
        [] nd.t = "trapr" -> Deliver(R(0, "n", 0), f.sup, out,
@@ -302,7 +306,7 @@ Terminate ==
 Init == /\ pi \in 1..Len(Progs)
         /\ k = <<Frame(Progs[pi].root, FALSE)>> /\ mode = "eval" /\ r = R(0, "n", 0)
         /\ sh = <<Sh0>> /\ out = <<>> /\ phase = "run" /\ xruns = 0 /\ code = 0
-        /\ gh = [flow |-> 0, ex |-> 0, sup |-> 0, err |-> 0]
+        /\ gh = [flow |-> 0, ex |-> 0, sup |-> 0, err |-> 0, fatal |-> 0]
 
 Finished == phase = "done" /\ UNCHANGED vars       \* so that every other dead end is a TLC deadlock (stuck machine)
 Next == EvalLeaf \/ EvalEnter \/ RetList \/ RetLoop \/ RetBoundary \/ RetHandler \/ Terminate \/ Finished
